@@ -23,13 +23,20 @@ KNOBS = {'n_min': 2, 'n_max': 5, 'late_p': 0.3, 'trigger_p': 0.6, 'crash_on_requ
          'apps': {'n_apps': (1, 3), 'n_progs': (1, 3), 'startsecs': (0, 8)}}
 
 
+# a family with slow handshakes (each of its XML-RPCs takes 0 - 3 s): what a handshake has read of the peer is
+# delivered after the newer publications of that peer
+SLOW_KNOBS = dict(KNOBS, handshake_skew=[0.0, 0.3, 1.0, 2.0, 3.0], late_p=0.5,
+                  kinds=['restart', 'restart', 'restart_master', 'cutlink', 'cutlink', 'crash'])
+
+
 def plan(tier, seed):
-    return [{'seed': seed * 1000003 + i} for i in range(COUNT[tier])]
+    return [{'seed': seed * 1000003 + i} for i in range(COUNT[tier])] + \
+        [{'seed': seed * 1000003 + 800000 + i, 'family': 'slow-handshake'} for i in range(COUNT[tier] // 3)]
 
 
 def run_case(case):
     mon = ProgressMonitor()
-    run = Run(case, KNOBS, [mon])
+    run = Run(case, SLOW_KNOBS if case.get('family') == 'slow-handshake' else KNOBS, [mon])
     violations = run.execute()
     nontrivial = any(not d.get('noop') for d in run.disturbances)
     return {'violations': violations, 'counters': run.counters,
